@@ -739,10 +739,25 @@ _process_request_(struct qb_ipcs_connection *c, int32_t ms_timeout)
 		}
 		res = size;
 		goto cleanup;
-	} else if (size == 0 || hdr->id == QB_IPC_MSG_DISCONNECT) {
+	} else if (size == 0 ||
+		   (size >= sizeof(struct qb_ipc_request_header) &&
+		    hdr->id == QB_IPC_MSG_DISCONNECT)) {
 		qb_util_log(LOG_DEBUG, "client requesting a disconnect (%s)",
 			    c->description);
 		res = -ESHUTDOWN;
+		goto cleanup;
+	} else if (size < sizeof(struct qb_ipc_request_header) ||
+		   hdr->size < (int32_t)sizeof(struct qb_ipc_request_header) ||
+		   hdr->size > size ||
+		   hdr->size > c->request.max_msg_size) {
+		/*
+		 * The size in the header is the sender's claim, don't hand
+		 * more to msg_process than there is.
+		 */
+		qb_util_log(LOG_ERR, "malformed request: %zd bytes, header says %d (%s)",
+			    size, (size >= sizeof(struct qb_ipc_request_header)) ? hdr->size : -1,
+			    c->description);
+		res = -EINVAL;
 		goto cleanup;
 	} else {
 		c->stats.requests++;
